@@ -374,7 +374,45 @@ def rule_params_forwarded_(ctx: Ctx, rep: Report) -> None:
     rule_params_forwarded(ctx, rep, "C01.params_forwarded", ('btclib.curves', 'btclib.number_theory'), 150)
 
 
+def rule_bindings_behind_dispatch(ctx: Ctx, rep: Report) -> None:
+    """C01.bindings_behind_dispatch: the group law has special cases libsecp256k1
+    cannot express -- 0*Q, Q = infinity, a sum that cancels -- and the
+    dispatching functions (`_mult_checked`, `double_mult_var`,
+    `multi_mult_var`) take the bindings only past guards for them, answering
+    the rest in Python. The arithmetic wrapper is therefore called from those
+    three and from nowhere else (C04.expressible's census, reported here for
+    the group-law clause: u*H + v*Q with v = 0 must be u*H, not an exception)."""
+    from rules import C04
+    tmp = Report("C04", rep.tier)
+    tmp.quiet = True
+    C04.rule_expressible(ctx, tmp)
+    n = 0
+    for o in tmp.obs:
+        if ":calls:" in o.instance or "guard_walks" in o.instance or o.instance.startswith("btclib.curves.curve"):
+            n += 1
+            rep.ob("C01.bindings_behind_dispatch", o.instance, o.held, o.site, o.detail)
+    rep.floor("C01.bindings_behind_dispatch", 4)
+
+
+def rule_generator_in_field(ctx: Ctx, rep: Report) -> None:
+    """C01.generator_in_field: a curve is stated by its parameters, and its
+    generator by two field elements: the coordinates a caller states are taken
+    as they are and held to the field by `is_on_curve` -- never reduced mod p
+    first, which would accept (x + p, y) as the generator and make two
+    different statements one curve."""
+    rule = "C01.generator_in_field"
+    fi = ctx.func(f"{CV}._generator_from_point")
+    mods = [b for b in own_nodes(fi.node) if isinstance(b, ast.BinOp) and isinstance(b.op, ast.Mod)]
+    rep.ob(rule, "_generator_from_point:no_reduction", not mods, fi.where(mods[0] if mods else None), "the coordinates are tested as stated" if not mods else
+           f"`{norm(mods[0])[:60]}` reduces a stated coordinate before it is tested: a coordinate outside the field is accepted as the one it is congruent to")
+    calls = [c for c in own_nodes(fi.node) if isinstance(c, ast.Call) and call_name(c) == "is_on_curve"]
+    rep.ob(rule, "_generator_from_point:tested", bool(calls), fi.where(), "the point is tested with is_on_curve (which holds it to the field)")
+    rep.floor(rule, 2)
+
+
 RULES = [
+    ("C01.bindings_behind_dispatch", rule_bindings_behind_dispatch),
+    ("C01.generator_in_field", rule_generator_in_field),
     ("C01.params_forwarded", rule_params_forwarded_),
     ("C01.own_fields", rule_own_fields),
     ("C01.on_curve", rule_on_curve),
